@@ -126,17 +126,8 @@ def families(tier, seed):
 
 def _twin_asymmetric():
     """mutant: intersection(HalfLine, Segment) (this argument order only) drops point results"""
-    import sys as _sys
-    it = _sys.modules['Geometry3D.calc.intersection']
-    orig = it.intersection
-
-    def f(a, b):
-        r = orig(a, b)
-        if isinstance(a, HalfLine) and isinstance(b, Segment) and isinstance(r, Point):
-            return None
-        return r
-    it.intersection = f
-    G.intersection = f
+    from .c01 import _wrap_public
+    _wrap_public('intersection', lambda a, b, r: None if (isinstance(a, HalfLine) and isinstance(b, Segment) and isinstance(r, Point)) else r)
 
 
 TWINS = {'intersection(HalfLine, Segment) loses points': (r'^HalfLine-Segment/', _twin_asymmetric)}
